@@ -41,6 +41,19 @@ def run(ck):
                     rows.append(body[:tot].ljust(tot, '-'))
                 names = ['b%d_%d' % (R, i) for i in range(len(rows))]
                 ck.count('rows with gaps at the %d-residue boundary' % R)
+            if k % 10 == 5:     # a wide alignment (>= 1024 columns) whose other rows are short sequences: they are all gaps in most blocks
+                                # (finalisation grows a row buffer from the residue count to the alignment width); names made of digits
+                                # and punctuation only, which a block reader must still take for names
+                alpha = gen.DNA if kind == 'dna' else gen.PROT
+                W = rng.choice([1030, 1100, 1300, 2100])
+                long_row = gen.rand_seq(rng, alpha, W)
+                rows = [long_row]
+                for i in range(rng.range(3, 6)):
+                    L = rng.choice([60, 90, 130, 300, 600]); at = rng.below(W - L)
+                    rows.append('-' * at + gen.rand_seq(rng, alpha, L) + '-' * (W - at - L))
+                names = ['7', '4_1', '2024-06.5|7', '12', '0.5', '3-3', '99|1'][:len(rows)]
+                rng.shuffle(names)
+                ck.count('>= 1024 columns with rows of 60..600 residues, numeric names')
             src = os.path.join(tmp, 's%d.fa' % k)
             open(src, 'w').write(gen.fasta(names, rows))
             cases.append((k, kind, names, rows, src))
